@@ -1,5 +1,7 @@
 // Independent reference models. Nothing in here uses a yui type.
 
+pub mod num;
+
 pub fn selftest() -> bool {
     true
 }
